@@ -25,3 +25,18 @@ add("C13", "model_checking",
     "trip that starts from an upper-half FREQUENCY axis is not claimed (the property restricts "
     "half axes to Hermitian-extendable time data; those are reached from the time side).",
     "DESIGN.md §3 C13")
+add("C19", "model_checking",
+    "explicit-state breadth-first search over operation histories of the real object with a "
+    "reference ledger and canonical-state deduplication",
+    "BFS over all histories (depth 4 quick / 6 thorough, ~80-op alphabet: additions at all five "
+    "levels with valid and invalid type names, tags, two integer arrays, explicit/implicit/unknown "
+    "resolution; all resolution changes incl. inadmissible ones) executed on a fresh real "
+    "TwoDResponse per history. After every transition every readable view (total, signals, "
+    "processes, types, tagged pathways, get_all_data) is compared for exact equality with a ledger "
+    "of accepted additions; refused operations must leave resolution and stored arrays "
+    "byte-identical; inexpressible views must be refused; reads must not change the storage; the "
+    "caller's arrays must not be modified. States are merged only when both the implementation "
+    "storage and the ledger agree.",
+    "Two 2x2 integer arrays (exact sums); histories longer than the depth bound are not explored; "
+    "type/process/signal membership tables are the library's published constants.",
+    "DESIGN.md §3 C19")
